@@ -27,6 +27,8 @@ def run(eng, ctx):
     nd = TR.dispatch(eng, ctx, "C10.D4")
     nl = TR.lengths(eng, ctx, "C10.D5")
     nb = TR.siblings(eng, ctx, "C10.D6")
+    nl7 = TR.layouts(eng, ctx, "C10.D7")
+    ctx.instance("pinned layouts and field classes compared", nl7, 660)
     # the bit length of a message with given repeat counts depends on what the decoder takes a repeat count to be: the derived counters
     # (population counts of the MSM masks, the 4076_201 coefficient-count polynomial at the current layer) and the group routine's use
     # of a count designator (exact count, +1 for the layer counter) are shared obligations
